@@ -706,6 +706,7 @@ func (g *gen) cosmosInput(class string) []byte {
 		depth := vh.Pick(r, []int{2, 5, 9, 10, 11, 25, 60})
 		var inner sdk.Msg = banktypes.NewMsgSend(s.Acc(), s.Acc(), sdk.NewCoins(sdk.NewCoin(vh.Denom, sdkmath.OneInt())))
 		kind := r.Intn(3)
+		doublings := 0
 		for i := 0; i < depth; i++ {
 			switch kind {
 			case 0:
@@ -718,7 +719,8 @@ func (g *gen) cosmosInput(class string) []byte {
 				}
 				inner = m
 			default:
-				if i%2 == 0 {
+				if i%2 == 0 && doublings < 10 { // at most 2^10 leaves: deeper levels nest without doubling (tx stays < 1 MiB)
+					doublings++
 					m := authz.NewMsgExec(s.Acc(), []sdk.Msg{inner, inner})
 					inner = &m
 				} else {
